@@ -31,11 +31,11 @@ NOTES = {
     "C07e": "engine dependence of a range delete with more than 5000 elements; C07's logs never build that many. Caught by the engine differential C20 (quick tier)",
     "C07f": "first evaluation missed it everywhere; caught by C04's pending-table state machine after an HMSET whose second value is over the size limit was added (the first pair must not survive the refusal)",
     "C12f": "a reverse sub-key scan that leaves its collection; C12's frame check does not scan. Caught by C13 (the scan does not terminate / pages differ)",
-    "C12e": "NOT caught: it needs a sorted-set score of -0. The sign of zero is excluded from every score pool because the implementation itself formats -0 inconsistently (ZSCORE answers -0, ZRANGE WITHSCORES answers 0), and C12's codec sub-run tolerates encodings that differ only in the sign of zero for the same reason. Stated as a miss",
+    "C12e": "first evaluation missed it: C12's codec sub-run skipped the order comparison for pairs that differ in the sign of a zero (a tolerance the unchanged code never needed: -0 and 0 are the same number and encode to the same bytes). Caught after the tolerance was removed and -0 put in the float pool; -0 is still kept out of the command-level score pools because the implementation formats it inconsistently (ZSCORE answers -0, ZRANGE WITHSCORES answers 0)",
     "C06e": "a torn tail makes ValidSnapshotEntries fail although ReadAll + Repair can read the log; process kills rarely tear a record (the page cache survives). Caught by C05 after it required that ValidSnapshotEntries does not fail on an image the rest of the restart sequence reads back",
     "C08f": "needs a list above 5000 elements, LCLEAR, and a rebuild at least as long; C08's sequences are short. Caught by C12's big-collection mode after 'clear, then build again a little longer' was added",
     "C05e": "NOT caught, and not reachable by a history production can produce: the lost hard state is only missed when the log is opened at a marker in the new segment, i.e. at an index the saved hard states have not committed yet; production opens at markers ValidSnapshotEntries returns, which are at or below the committed index, and a commit beyond the cut writes a hard state into the new segment. The generator is kept sound rather than widened",
-    "C19e": "NOT caught: it is in the remote-snapshot path (ApplyRemoteSnap after NotifyTransferSnap / rsync between clusters), which C19 states as not driven",
+    "C19e": "first evaluation missed it (the remote-snapshot hand-over was not driven at all). Caught after the replay sub-run got the step 'the sender announces a snapshot of X, the transfer is a no-op (ignore_remote_file_sync), the restore finds no files and fails': the synced position must not move and the status must not read applied. The successful restore (rsync between clusters) is still not driven",
     "C15e": "first evaluation missed it (partition counts 1,2,3,4,8 only, and the server's formula was copied, not called); caught after the routing sub-run draws counts up to 1024 and asks the real NamespaceMgr",
     "C19f": "first evaluation missed it; caught after deliveries addressed to a raft group that is not loaded on the node were added (they must not be acknowledged)",
     "C04f": "first evaluation missed it; caught by the pending-table state machine after it modelled the batch semantics",
